@@ -23,12 +23,33 @@ THOROUGH_SETS = ["CfgsMid", "CfgsBig"]
 LIVE_SET = "CfgsSmall"
 
 
-def code_switches(repo=REPO):
+def _repo():
+    """/repo, or the private copy next to a scratch copy of /verif (bin/scratch)."""
+    cand = os.path.join(os.path.dirname(vlib.ROOT), "repo")
+    return cand if os.path.isdir(os.path.join(cand, "packages")) else REPO
+
+
+def code_switches(repo=None):
+    repo = repo or _repo()
     """The explorer mirrors the tree it is checked against: read the three code-dependent switches from the source."""
     tp = open(os.path.join(repo, "packages/par_bench/src/threadpool.rs")).read()
     rc = open(os.path.join(repo, "packages/par_bench/src/run_configured.rs")).read()
     body = tp[tp.index("fn execute_task"):tp.index("impl Drop for ThreadPool")]
-    collect_all = ("catch_unwind" in body) and ("resume_unwind" in body) and ("did it panic" not in body)
+    # CollectAll: the worker closure catches the panic, and nothing re-raises inside the loop that receives the results
+    loop_at = body.find("for rx in result_rxs")
+    collect_all = False
+    if loop_at >= 0 and "catch_unwind" in body[:loop_at]:
+        i = body.index("{", loop_at)
+        depth, j = 0, i
+        while j < len(body):
+            depth += body[j] == "{"
+            depth -= body[j] == "}"
+            if depth == 0:
+                break
+            j += 1
+        inside, after = body[i:j], body[j:]
+        collect_all = ("resume_unwind" not in inside) and ("panic!" not in inside) and ("did it panic" not in inside) \
+            and ("resume_unwind" in after)
     pre = rc[rc.index("pool.execute_task"):rc.index("start.wait()")]
     barrier_on_panic = "catch_unwind" in pre
     m = re.search(r"Barrier::new\(\s*thread_count\.get\(\)\s*(-\s*1\s*)?\)", rc)
@@ -152,8 +173,13 @@ def check(run):
     fstat = json.loads(fp.stdout.strip().splitlines()[-1])
     run.cov["harness"] = {"healthy": hstat, "faults": fstat, "gate_ms": gate_ms}
     with cf.ThreadPoolExecutor(max_workers=2) as ex:
-        fh = ex.submit(validate_trace, D, "Trace_ParBench", trace_h, "Trace_ParBench.cfg", 1500)
-        ff = ex.submit(validate_trace, D, "Trace_ParBench", trace_f, "Trace_ParBench.cfg", 1500)
+        # (distinct cfg names: vlib derives TLC's metadir from the cfg name, and the two runs are concurrent)
+        cfgs = {}
+        for nm in ("healthy", "faults"):
+            cfgs[nm] = os.path.join(wd, "Trace_ParBench_%s.cfg" % nm)
+            open(cfgs[nm], "w").write(open(os.path.join(D, "Trace_ParBench.cfg")).read())
+        fh = ex.submit(validate_trace, D, "Trace_ParBench", trace_h, cfgs["healthy"], 1500)
+        ff = ex.submit(validate_trace, D, "Trace_ParBench", trace_f, cfgs["faults"], 1500)
         pre = {"healthy": fh.result(), "faults": ff.result()}
     recs_h, rej_h, ab_h = judge(run, trace_h, "healthy", wd, pre["healthy"])
     recs_f, rej_f, ab_f = judge(run, trace_f, "faults", wd, pre["faults"])
